@@ -175,5 +175,5 @@ def strata(tier, seed):
         cs.append(dict(shape=sh, rho=rho, m=m, pat='gen', caps=[1e12], gseeds=[0], seed=seed))
     for n, dd in ((4, 34), (10, 21), (2, 70)):
         cs.append(dict(shape=[n] * dd, rho=2, m=2, pat='stab', caps=[2, 1e12], gseeds=[0, 1, 2], seed=seed, long=True))
-    yield Stratum('configurations', cs, 'config', size=len(cs), chunk=4,
+    yield Stratum('configurations', cs, 'config', seq=True, size=len(cs), chunk=4,
                   bounds={'d': [2, 4], 'rho': [1, 3], 'm': 'rho..rho+2', 'n': 'm..m+2'})
